@@ -129,6 +129,43 @@ def check(repo: Repo, run: Run) -> None:
         "connective, reducer, neutral element, element comparison, element pairing). Not decided: reflexivity, symmetry, "
         "trichotomy and transitivity of the builtin orders themselves (CPython)."
     )
+    # P4: strings compare by code point, so a string value must *be* the code points it was built from: the text arm
+    # of StringType.__new__ hands the source to str unchanged.  Any transformation there (Unicode normalisation, case
+    # folding, stripping) identifies strings that are different (`e` + U+0301 vs U+00E9) and reorders others.
+    from ..core.paths import flat_conds as _fc4, paths_of as _po4
+
+    ct4 = repo.mod("celtypes")
+    scls = ct4.cls("StringType")
+    snew = class_methods(scls).get("__new__")
+    if snew is None or len(snew.args.args) < 2:
+        run.inconclusive("C08.P4", "StringType.__new__", "constructor not found")
+    else:
+        src4 = snew.args.args[1].arg
+        verdict4, why4, site4 = None, "no text arm found", ct4.loc(snew)
+        try:
+            sp = [p for p in _po4(ct4, scls, snew) if p.kind == "return" and p.value is not None]
+        except OverflowError:
+            sp = []
+        for p in sp:
+            text_arm = any(pol and isinstance(t, ast.Call) and dotted(t.func) == "isinstance" and ast.unparse(strip_cast(t.args[0])) == src4 and "str" in ast.unparse(t.args[1]).replace("StringType", "str")
+                           and "bytes" not in ast.unparse(t.args[1]).lower() for t, pol in _fc4(p.conds))
+            if not text_arm:
+                continue
+            v = strip_cast(p.value)
+            if isinstance(v, ast.Name) and v.id == src4:
+                verdict4 = True if verdict4 is None else verdict4
+                continue
+            if isinstance(v, ast.Call) and isinstance(v.func, ast.Attribute) and v.func.attr == "__new__" and len(v.args) >= 2:
+                a = strip_cast(v.args[1])
+                if isinstance(a, ast.Name) and a.id == src4:
+                    verdict4, why4 = (True, "the text arm passes the source to str unchanged") if verdict4 is not False else (verdict4, why4)
+                elif isinstance(a, ast.Call) and any(isinstance(x, ast.Name) and x.id == src4 for x in ast.walk(a)):
+                    verdict4, why4, site4 = False, (f"the text arm builds the string from `{ast.unparse(a)[:60]}`: the value no longer is the sequence of code points it was given, "
+                                                    "so strings that differ compare equal (or order differently) after construction"), ct4.loc(p.node or snew)
+        if verdict4 is None:
+            run.inconclusive("C08.P4", "StringType.__new__", why4)
+        else:
+            run.ob("C08.P4", "StringType.__new__|text arm", verdict4, f"StringType.__new__: {why4}", site4)
     run.assumptions = ["order laws of Python's int/float/str/bytes/datetime/timedelta comparisons"]
     ct = repo.mod("celtypes")
     # P1 -----------------------------------------------------------------
